@@ -10,8 +10,8 @@ CLAIMS = {
   note="Trusted: rustc, Verus+z3, Kani+CBMC; i64::from_str; parametricity of the generic Deserialize impl over deserializers; struct re-declaration in the Verus unit (shape scan).",
   design="§4 C15"),
  "C14": dict(
-  technique="Verus contracts + loop invariants on the verbatim DoubleOps impls for Option<T> and Vec<T> against lexicographic spec functions, generic lifting lemmas (T lawful => Option<T>, Vec<T> lawful, by induction); Kani loop-free harnesses over all f64 triples for DoubleOps-for-f64, Option<f64>, DoubleKey incl. a recording Hasher",
-  text="Proof for the runtime core: order/equality/hash laws for f64 (all bit patterns incl. NaN payloads, +-0), DoubleKey, Option<T> and Vec<T> of any length and nesting. Not decided: BTreeMap values, Vec hash beyond length 2 (bounded), which fields the generator decorates and what educe expands to.",
+  technique="Verus contracts + loop invariants on the verbatim DoubleOps impls for Option<T> and Vec<T> (cmp, eq, hash over a ghost hasher model) against lexicographic spec functions, generic lifting lemmas (T lawful => Option<T>, Vec<T> lawful, by induction); Kani loop-free harnesses over all f64 triples for DoubleOps-for-f64, Option<f64>, DoubleKey incl. a recording Hasher",
+  text="Proof for the runtime core: order/equality/hash laws for f64 (all bit patterns incl. NaN payloads, +-0), DoubleKey, Option<T> and Vec<T> of any length and nesting (cmp, eq and hash of Vec<T> verified verbatim with loop invariants; alternative lawful orders / hash layouts are recognised, not flagged). Not decided: BTreeMap values, which fields the generator decorates and what educe expands to.",
   note="Trusted: rustc, Verus+z3, Kani+CBMC, educe expansion, generator attribute selection, vstd specs for slices/ranges; the f64 instance inside the Verus unit is external_body and discharged cross-engine by Kani.",
   design="§4 C14"),
  "C13": dict(
